@@ -11,14 +11,14 @@ ROUNDS = {
     "C04": [(2, 1), (5, 2), (8, 3), (11, 4), (14, 6), (17, 8)],
     "C15": [(2, 1), (5, 2), (8, 3), (11, 4), (14, 6), (17, 8)],
     "C13": [(2, 1), (5, 2), (8, 3), (11, 4), (14, 5), (17, 8)],
-    "C05": [(2, 1), (5, 2), (8, 3), (11, 4), (14, 5), (17, 7)],
+    "C05": [(2, 1), (5, 2), (8, 3), (11, 4), (14, 5), (17, 7), (20, 9)],
     "C12": [(2, 1), (5, 2), (8, 3), (11, 4), (14, 5), (17, 7)],
-    "C14": [(2, 1), (5, 2), (8, 3), (11, 4), (14, 5), (17, 7)],
+    "C14": [(2, 1), (5, 2), (8, 3), (11, 4), (14, 5), (17, 7), (20, 9)],
     "C16": [(2, 1), (5, 2), (8, 3), (11, 4), (14, 5), (17, 7)],
-    "C17": [(2, 1), (5, 2), (8, 3), (11, 4), (14, 5), (17, 7)],
-    "C06": [(2, 1), (5, 2), (8, 4), (11, 5), (14, 7)],
-    "C08": [(2, 1), (5, 2), (8, 4), (11, 5), (14, 7)],
-    "C11": [(2, 1), (5, 2), (8, 4), (11, 5), (14, 7)],
+    "C17": [(2, 1), (5, 2), (8, 3), (11, 4), (14, 5), (17, 7), (20, 9)],
+    "C06": [(2, 1), (5, 2), (8, 4), (11, 5), (14, 7), (17, 9)],
+    "C08": [(2, 1), (5, 2), (8, 4), (11, 5), (14, 7), (17, 9)],
+    "C11": [(2, 1), (5, 2), (8, 4), (11, 5), (14, 7), (17, 9)],
     "C09": [(2, 1), (5, 3), (8, 4), (11, 6)],
     "C10": [(2, 1), (5, 3), (8, 4), (11, 6), (14, 8)],
     "C18": [(2, 1), (5, 3), (8, 4), (11, 6), (14, 8)],
